@@ -532,27 +532,47 @@ def run_service(prog, *, seed=0, group_members=("a", "b")):
     lroot = envs[0].get("BATCH_TMPDIR", "") if envs else ""
     rroot = next((s["process"]["command"][-1] for s in specs if s.get("attributes", {}).get("name") == "remove_tmpdir"), "")
     ev.append({"a": "StartService", "l": lroot, "r": rroot})
+    # pass 1: split every submitted script into its commands and tokens; pass 2: one bash evaluates all reference tokens
+    pending, raws_all = [], []
     for s in sorted(specs, key=lambda s: s["job_id"]):
         i = by_client_id.get(s["job_id"])
         if i is None:
             continue
-        env = dict((e["name"], e["value"]) for e in s.get("env", []))
         cmdv = s["process"]["command"]
         parsed = _split_command(cmdv[2]) if len(cmdv) == 3 and cmdv[1] == "-c" else None
         links, cmds = parsed if parsed else ([], [])
         prog_cmds = [e["toks"] for e in ev if e["a"] == "Command" and e["j"] == i and e["out"] == "ok"]
-        rec_cmds = []
+        toks = []
         for ci, text in enumerate(cmds):
             raws = text.split("\t")
             want = prog_cmds[ci] if ci < len(prog_cmds) and len(prog_cmds[ci]) == len(raws) else None
-            refpos = [k for k in range(len(raws)) if want is not None and want[k]["t"] == "ref"]
-            words = dict(zip(refpos, _bash_words([raws[k] for k in refpos], env)))
-            rec_cmds.append([{"raw": raws[k], "words": (words.get(k) or [])} for k in range(len(raws))])
+            row = []
+            for k, raw in enumerate(raws):
+                isref = want is not None and want[k]["t"] == "ref"
+                row.append({"raw": raw, "words": [], "_at": len(raws_all) if isref else None})
+                if isref:
+                    raws_all.append(raw)
+            toks.append(row)
+        pending.append((i, s, cmdv, links, toks))
+    if any(e != envs[0] for e in envs):  # never the case with the real backend: then every job is evaluated in its own environment
+        words, k = [], 0
+        for (i, sp, *_rest), toks in zip(pending, [p[4] for p in pending]):
+            n = sum(1 for row in toks for t in row if t["_at"] is not None)
+            words += _bash_words(raws_all[k:k + n], dict((e["name"], e["value"]) for e in sp.get("env", [])))
+            k += n
+    else:
+        words = _bash_words(raws_all, envs[0] if envs else {})
+    for i, s, cmdv, links, toks in pending:
+        for row in toks:
+            for t in row:
+                at = t.pop("_at")
+                if at is not None:
+                    t["words"] = words[at] or []
         rec = {
             "parents": sorted(by_client_id[p] for p in s.get("in_update_parent_ids", []) if p in by_client_id),
             "inputs": [{"src": f["from"], "dst": f["to"]} for f in s.get("input_files", [])],
             "outputs": [{"src": f["from"], "dst": f["to"]} for f in s.get("output_files", [])],
-            "links": links, "cmds": rec_cmds,
+            "links": links, "cmds": toks,
         }
         ev.append({"a": "Submit", "j": i, "rec": rec, "always_run": s.get("always_run"), "raw_command": cmdv[2] if len(cmdv) == 3 else cmdv})
     ev.append({"a": "EndService", "ups": [{"src": u["from"], "dst": u["to"]} for u in uploads]})
